@@ -237,6 +237,7 @@ func areaCrash(r *Rng, n int, dir string) (*AreaOut, error) {
 
 		forced := r.Chance(35)
 		unsafeNames := r.Chance(50)
+		onceNext := false // the next process created runs a single pass (only_once)
 		newInst := func(i int, env *lmdb.Env, closeEnv func()) (*crashInst, error) {
 			// configured instance names contain characters outside the safe alphabet (as host names do): LS uses the
 			// sanitised form everywhere (snapshot names, the set of instances it waits for)
@@ -254,6 +255,7 @@ func areaCrash(r *Rng, n int, dir string) (*AreaOut, error) {
 				if forced {
 					c.StorageForceSnapshotInterval = 30 * time.Millisecond // periodic forced snapshots (scaled down from hours)
 				}
+				c.OnlyOnce = onceNext
 			}})
 			if err != nil {
 				return nil, err
@@ -443,8 +445,98 @@ func areaCrash(r *Rng, n int, dir string) (*AreaOut, error) {
 			default:
 				settle(time.Duration(10+r.Intn(40)) * time.Millisecond)
 			}
+			if e == nev/2 && ni >= 2 && r.Chance(45) {
+				// a restart while ANOTHER instance's snapshot cannot be downloaded (for seconds): this instance waits for
+				// its own old snapshot only, and publishes what its application commits
+				in = insts[in.idx] // the event above may have replaced the process (and its LMDB)
+				o := insts[(in.idx+1)%ni]
+				stop(in)
+				bk.mu.Lock()
+				bk.failLoad[dbName+"__"+o.name+"__"] = 100000
+				bk.mu.Unlock()
+				kin, err := newInst(in.idx, in.env, in.closeEnv)
+				if err != nil {
+					return fail(err)
+				}
+				kin.lastWrite = in.lastWrite
+				insts[in.idx] = kin
+				start(kin)
+				restarts++
+				settle(30 * time.Millisecond)
+				write(kin)
+				wrote := kin.lastWrite
+				deadline := time.Now().Add(2500 * time.Millisecond)
+				published := false
+				for time.Now().Before(deadline) && !wrote.IsZero() {
+					bk.mu.Lock()
+					up := bk.lastUp[kin.idx]
+					bk.mu.Unlock()
+					if up.After(wrote) {
+						published = true
+						break
+					}
+					select {
+					case err := <-kin.done:
+						kin.done <- err
+						published = true // Sync returned (fatal error): a dead process, judged elsewhere
+					default:
+					}
+					time.Sleep(5 * time.Millisecond)
+				}
+				bk.mu.Lock()
+				bk.failLoad[dbName+"__"+o.name+"__"] = 0
+				bk.mu.Unlock()
+				if !published && !wrote.IsZero() {
+					out.Oracle = append(out.Oracle, OracleFailure{"C09", "unpublished-while-other-download-fails", fmt.Sprintf("instance %s restarted while the snapshot of instance %s could not be downloaded; its application committed, and 2.5 s later nothing had been uploaded (downloads of its OWN snapshots were healthy)", kin.name, o.name), map[string]any{"native": native, "events": lst(events)}})
+				}
+			}
 		}
 		settle(60 * time.Millisecond)
+		if r.Chance(40) {
+			// one instance is stopped, its application commits, and a single-pass run (only_once) follows: the run merges
+			// what is in the bucket, publishes the commit, and ends by itself
+			in := insts[r.Intn(ni)]
+			stop(in)
+			write(in)
+			wrote := in.lastWrite
+			onceNext = true
+			oin, err := newInst(in.idx, in.env, in.closeEnv)
+			onceNext = false
+			if err != nil {
+				return fail(err)
+			}
+			oin.lastWrite = wrote
+			insts[in.idx] = oin
+			start(oin)
+			restarts++
+			var onceErr error
+			returned := false
+			select {
+			case onceErr = <-oin.done:
+				oin.done <- onceErr
+				returned = true
+			case <-time.After(6 * time.Second):
+			}
+			bk.mu.Lock()
+			up := bk.lastUp[oin.idx]
+			bk.mu.Unlock()
+			switch {
+			case !returned:
+				out.Oracle = append(out.Oracle, OracleFailure{"C16", "once-exits", fmt.Sprintf("instance %s: Sync with only_once did not return within 6 s (storage healthy)", oin.name), map[string]any{"native": native, "events": lst(events)}})
+			case onceErr == nil && !wrote.IsZero() && !up.After(wrote):
+				out.Oracle = append(out.Oracle, OracleFailure{"C09", "only-once-publishes", fmt.Sprintf("instance %s: the application committed while Lightning Stream was down; the only_once run that followed returned without error but uploaded nothing afterwards", oin.name), map[string]any{"native": native, "events": lst(events)}})
+			}
+			stop(oin)
+			// back to a normal process for the final phase
+			nin, err := newInst(in.idx, in.env, in.closeEnv)
+			if err != nil {
+				return fail(err)
+			}
+			nin.lastWrite = wrote
+			insts[in.idx] = nin
+			start(nin)
+			settle(40 * time.Millisecond)
+		}
 		// C09: with storage healthy again and nothing else happening, every running instance publishes what its
 		// application committed (bounded wait; an instance whose Sync returned, e.g. after exhausting the Store
 		// retry budget, is a dead process and publishes at its next start)
